@@ -181,3 +181,36 @@ def install_assd_snap():
     from . import refmodel
 
     refmodel.ASSD_SNAP = assd_snap
+
+
+# ----------------------------------------------------------------------------- priming
+# Before the action a check is about, it may first use *other* panoptica objects (other
+# configuration, other dimensionality). On a tree without hidden state this changes nothing;
+# a cache, a mutated default argument or a value stored on a shared object shows up in the
+# main action, inside one replayable case.
+PRIMES = {
+    "semantic2d": ({"input": "SEMANTIC", "backend": None, "matcher": {"kind": "naive", "metric": "IOU", "thr": 0.5}}, [[1, 0, 0], [0, 1, 0], [0, 0, 2]], [[1, 0, 0], [0, 1, 0], [0, 2, 2]]),
+    "semantic3d": ({"input": "SEMANTIC", "backend": None, "matcher": {"kind": "naive", "metric": "DSC", "thr": 0.25, "m2o": True}},
+                   [[[1, 0], [0, 1]], [[0, 0], [0, 0]]], [[[1, 0], [0, 0]], [[0, 0], [0, 1]]]),
+    "merge_assd": ({"input": "UNMATCHED_INSTANCE", "matcher": {"kind": "merge", "metric": "ASSD", "thr": 2.0}, "imetrics": ["ASSD", "RVD"], "gmetrics": []},
+                   [1, 1, 1, 2, 2, 0, 3], [1, 1, 1, 1, 1, 0, 0]),
+    "matched_decision": ({"input": "MATCHED_INSTANCE", "decision": ["IOU", 0.9], "imetrics": ["DSC", "IOU"], "gmetrics": ["DSC", "IOU", "RVD"]},
+                         [1, 1, 0, 2, 2, 2], [1, 1, 1, 2, 2, 2]),
+    "groups_single": ({"input": "SEMANTIC", "backend": "scipy", "matcher": {"kind": "naive", "metric": "IOU", "thr": 0.5}, "decision": ["DSC", 0.7],
+                       "groups": [{"name": "a", "labels": [1], "kind": "single"}, {"name": "b", "labels": [2, 3], "kind": "merge"}]},
+                      [1, 1, 0, 2, 3, 0, 0], [1, 0, 0, 2, 2, 3, 0]),
+    "handler_ones": ({"input": "UNMATCHED_INSTANCE", "matcher": {"kind": "naive", "metric": "IOU", "thr": 0.5}, "imetrics": ["DSC"], "gmetrics": ["DSC"],
+                      "handler": {"std": "ONE", "metrics": {"DSC": ["ONE", "ONE", "ONE", "ONE"]}}}, [0, 0, 0], [1, 1, 0]),
+}
+
+
+def run_primes(names):
+    for nm in names or []:
+        cfg, p, r = PRIMES[nm]
+        try:
+            with H.quiet():
+                ev = evaluator(cfg)
+                ev.evaluate(np.array(p, dtype=np.uint8), np.array(r, dtype=np.uint8))
+                ev.resulting_metric_keys
+        except Exception:
+            pass  # not this case's business
